@@ -81,6 +81,12 @@ def plan(tier, seed):
     for n in (3, 5):
         for route in (6, 7):
             q("sqr%d-%dx%d" % (route, n, n), {"MM": n, "LL": n, "NN": n, "ROUTE": route, "SQUARE": None, "CMODE": 1, "KINIT": 8}, timeout=1200)
+    # ---- DJB: compile (data dependent heap order) + apply on a zeroed target
+    for (m, n, nv, pat) in [(8, 8, 70, 0), (16, 16, 130, 0), (12, 70, 65, 1), (5, 5, 64, 3), (6, 6, 70, 4)]:
+        qs.append(Q("djb-A%dx%d-V%d-p%d" % (m, n, nv, pat), "c01_djb.c", {"MA": m, "NA": n, "NV": nv, "AMODE": 1, "APAT": pat, "VSEED": 1 + seed}, group="c01-djb", backend="z3", fallback="cadical", timeout=900))
+    for (m, n) in [(2, 2), (3, 3)] + ([(3, 4), (4, 4)] if T else []):
+        qs.append(Q("djb-full-%dx%d" % (m, n), "c01_djb.c", {"MA": m, "NA": n, "NV": 70, "AMODE": 0}, group="c01-djb", timeout=1500, fallback="kissat",
+                    unwindset={"djb_compile": m * n + n + 2, "heap_push": 4, "heap_pop": 4, "mzd_compare_rows_revlex": 3}))
     # ---- Strassen-Winograd routes: modular index-level check, symbolic dimensions and cutoff (DESIGN F22)
     REN = {"_mzd_mul_even": "L1__mzd_mul_even", "_mzd_sqr_even": "L1__mzd_sqr_even", "_mzd_addmul_even": "L1__mzd_addmul_even", "_mzd_addsqr_even": "L1__mzd_addsqr_even",
            "mzd_mul": "L1_mzd_mul", "mzd_addmul": "L1_mzd_addmul", "_mzd_addmul": "L1__mzd_addmul"}
